@@ -85,8 +85,8 @@ def regex_to_z3(pat):
 # ------------------------------------------------------------------ extraction of the decision list
 def str_block(fn):
     for st in fn.body:
-        if isinstance(st, ast.If) and ast.unparse(st.test) == 'isinstance(color, str)': return st.body
-    raise Unsupported('no `if isinstance(color, str):` block')
+        if isinstance(st, ast.If) and ast.unparse(st.test) == f'isinstance({fn.args.args[0].arg}, str)': return st.body
+    raise Unsupported('no `if isinstance(<argument>, str):` block')
 
 
 def outcome_of(stmts):
@@ -144,13 +144,27 @@ class Translator:
     def __init__(self, table_keys):
         self.t = z3.String('s_lower'); self.s = z3.String('s')
         self.table = table_keys
+        self.param = 'color'; self.alias = {}
         self.side = [z3.Contains(self.s, z3.StringVal(',')) == z3.Contains(self.t, z3.StringVal(',')), z3.Contains(self.s, z3.StringVal(' ')) == z3.Contains(self.t, z3.StringVal(' '))]
+    def role(self, e, depth=0):
+        """what a string expression denotes, by dataflow from the parameter (never by the spelling of a local):
+        'raw' = the argument, 'stripped' = argument.strip(), 'lower' = the stripped text lower-cased"""
+        if depth > 6: return None
+        if isinstance(e, ast.Name):
+            if e.id == self.param: return 'raw'
+            if e.id in self.alias: return self.role(self.alias[e.id], depth + 1)
+            return None
+        if isinstance(e, ast.Call) and isinstance(e.func, ast.Attribute) and not e.args and not e.keywords:
+            inner = self.role(e.func.value, depth + 1)
+            if e.func.attr == 'strip' and inner in ('raw', 'stripped'): return 'stripped'
+            if e.func.attr == 'strip' and inner == 'lower': return 'lower'
+            if e.func.attr == 'lower' and inner in ('stripped', 'lower'): return 'lower'
+        return None
     def var(self, e):
-        src = ast.unparse(e)
-        if src in ('s_lower', 's') and False: pass
-        if src == 's_lower' or src.endswith('.lower()') or src == 's' and 's_is_lower' in self.__dict__: return self.t
-        if src == 's': return self.s
-        raise Unsupported(f'string expression {src}')
+        r = self.role(e)
+        if r == 'lower': return self.t
+        if r == 'stripped': return self.s
+        raise Unsupported(f'string expression {ast.unparse(e)}')
     def tr(self, e):
         if isinstance(e, ast.BoolOp):
             xs = [self.tr(v) for v in e.values]
@@ -201,8 +215,7 @@ def lemmas(fn, table_keys, expected, bare_hex_excludes_keywords=True):
     body = str_block(fn)
     dl, alias = decision_list(body)
     tr = Translator(table_keys)
-    # which variable is the normalised (stripped + lower-cased) string
-    if 's' in alias and ast.unparse(alias['s']).endswith('.strip().lower()'): tr.s_is_lower = True
+    tr.alias = alias; tr.param = fn.args.args[0].arg
     out = []
     kwre = z3.Union(*[z3.Re(z3.StringVal(k)) for k in table_keys])
     for cls, want in expected.items():
